@@ -1,3 +1,4 @@
+open BinNat
 open BinNums
 open BinPos
 open Datatypes
@@ -57,4 +58,8 @@ module Z :
   val div : coq_Z -> coq_Z -> coq_Z
 
   val modulo : coq_Z -> coq_Z -> coq_Z
+
+  val quotrem : coq_Z -> coq_Z -> coq_Z * coq_Z
+
+  val quot : coq_Z -> coq_Z -> coq_Z
  end
